@@ -48,6 +48,16 @@ fn main() {
     }
     let mut ctx = Ctx::new(args);
     watchdog(ctx.prop().to_string(), ctx.tier().pick(50 * 60, 8 * 3600));
+    // a vacuous run must not look like a pass (DESIGN section 5)
+    ctx.floor = match ctx.prop() {
+        "C36" | "C37" => 2000,
+        "C38" => 60,
+        "C39" => 40,
+        "C40" => 300,
+        "C31" => 80,
+        "C34" => 60,
+        _ => 2,
+    };
     match ctx.prop().to_string().as_str() {
         "C36" => {
             ctx.rule = "hook level: every scenario = hook kind(s) of one tick/observation x layout of <=4 (thorough 5) uniquely numbered items over <=2 keys / 2 merge inputs x split into <=3 instalments x 1-2 scheduling attempts per instalment, resolved through the scheduler's run_hooks (and, for solo hooks, through the bare SimHook API with both force values); ALL decision tapes of a scenario are enumerated depth-first by the harness driver; proptest scenarios (5-9 items, <=3 hooks, 3 keys) with sampled tapes beyond. Non-trivial: some tape of the scenario splits a queue of >=3 items into >=2 releases (snapshots: skips to a newer version with >=2 pending). Distinct: structural hash of the scenario.".into();
